@@ -28,6 +28,7 @@ pub fn export(db: &ReflectionDatabase, out: &mut dyn Write) {
             let (dkind, dname) = data_type(&p.data_type);
             let mut rec = json!({
                 "name": p.name.as_ref(),
+                "name_b": pval::bytes(p.name.as_bytes()),
                 "dkind": dkind, "dtype": dname,
                 "kind": "", "alias_for": "", "ser": "", "ser_as": "", "mig_to": "", "mig_op": "",
             });
@@ -70,6 +71,7 @@ pub fn export(db: &ReflectionDatabase, out: &mut dyn Write) {
             cname.to_string(),
             json!({
                 "name": class.name.as_ref(),
+                "name_b": pval::bytes(class.name.as_bytes()),
                 "superclass": class.superclass.as_deref().unwrap_or(""),
                 "tags": tags,
                 "props": Value::Object(props),
